@@ -18,14 +18,14 @@ for d, dec, enc in (('res', 'out_decompressor', 'response'), ('req', 'req_decomp
                    sub='%s decompressor sink: entity_len += d->len; the hooks see exactly (d->data, d->len, tx) once; HTP_OK <=> hooks OK and entity_len <= max(compression_bomb_limit, 2048*message_len); outside the bound => HTP_ERROR and nothing else (frame)' % enc))
 
 # ---- unit 2: the inflate loop ---------------------------------------------------------------------------------------------
-D2 = {'quick': {'C07_UNIT_DECOMPRESS': 1, 'C07_INCAP': 65536, 'KNOWN_F_C07_STALE_REDELIVERY': 1, 'C07_RESTART_MIN': 3}, 'thorough': {'C07_INCAP': '((size_t) UINT32_MAX + 4096)'}}
+D2 = {'quick': {'C07_UNIT_DECOMPRESS': 1, 'C07_INCAP': 65536, 'C07_RESTART_MIN': 3}, 'thorough': {'C07_INCAP': '((size_t) UINT32_MAX + 4096)'}}
 ZSTUBS = ['inflate', 'inflateInit2_', 'inflateEnd', 'crc32', 'LzmaDec_Allocate', 'LzmaDec_Init', 'LzmaDec_Free', 'LzmaDec_DecodeToBuf']
 A2 = ['zlib (inflate, inflateInit2_, inflateEnd, crc32) and the LZMA SDK (LzmaDec_Allocate/Init/Free/DecodeToBuf) replaced by frame contracts: they consume a prefix of the input window, fill a prefix of the output window and return ANY code; their call-site requirements (valid windows) are proved',
       'for the variant only: inflate == Z_OK / LzmaDec_DecodeToBuf == SZ_OK implies progress (input consumed or output produced), and the sink accepts a bounded number of bytes per call (ghost budget = the bomb inequality of unit 1 with message_len fixed during the call)',
       'downstream sink (drec->super.callback) replaced by a stub returning any status; single / innermost layer (next == NULL): the recursive next-layer call is unreachable in this unit (dfcc asserts no_recursive_call); an outer layer hands its buffers to the next layer through the same three call sites, see notes/c07.md',
       'the `goto restart` back edge (no loop-contract syntax exists for goto loops) is unwound (4 - restart_min) times before contract instrumentation; the unwinding assertion is part of the obligations, so the bound is proved from the restart counter, not assumed',
       'input chunk <= C07_INCAP bytes; decompressor object well-formed on entry (output cursor inside the 8 KiB buffer, zlib_initialized in 0..4, header_len <= 14) - re-established on every exit (P0)',
-      'KNOWN_F_C07_STALE_REDELIVERY defined: obligation S4 (no non-empty delivery on a stream that was dead on entry) is claimed only when the output window is not full / at end-of-body empty; the probe run without the macro fails (finding c07_stale_buffer_redelivery)']
+      'KNOWN_F_C07_STALE_REDELIVERY is NO LONGER defined (fixed in /repo 9249f2d): obligation S4 is claimed in full. Historic note - with the macro: obligation S4 (no non-empty delivery on a stream that was dead on entry) is claimed only when the output window is not full / at end-of-body empty; the probe run without the macro fails (finding c07_stale_buffer_redelivery)']
 LOOP2 = dict(
     assigns='consumed, rc, callback_rc, drec->stream, drec->crc, drec->header, drec->header_len, drec->state, '
             'g_c07_cb, g_c07_cb_failed, g_c07_cb_rc, g_c07_cb_ptr, g_c07_cb_len, g_c07_budget',
